@@ -224,31 +224,59 @@ def run(prog: Program, rep, thorough: bool) -> None:
     tc = prog.module(C.M_TC)
     it = prog.func(C.M_TC, 'TrajectoryCalc._init_trajectory')
     rep.saw(it)
-    shot_param = it.positional[1] if len(it.positional) > 1 else 'shot_info'
-    stores = []
-    for f in tc.funcs.values():
-        for n in ast.walk(f.node):
-            if isinstance(n, (ast.Assign, ast.AugAssign, ast.AnnAssign)):
-                tgts = n.targets if isinstance(n, ast.Assign) else [n.target]
-                for t in tgts:
-                    if isinstance(t, ast.Attribute) and t.attr == 'muzzle_velocity':
-                        stores.append((f, n))
-    stores = [(f, n) for f, n in {id(n): (f, n) for f, n in stores}.values()]
-    want_txt = f'{shot_param}.ammo.get_velocity_for_temp({shot_param}.atmo.powder_temp)'
-    good = []
-    for f, n in stores:
-        val = n.value
-        ok = (f is it and isinstance(val, ast.BinOp) and isinstance(val.op, ast.RShift)
-              and norm(val.left) == want_txt and C.unit_of_expr(prog, tc, val.right) == 'FPS')
-        if ok:
-            good.append(n)
-        else:
-            rep.fail('C17.R4', tc.path, n.lineno, f.qualname, 'muzzle_velocity',
-                     f'muzzle velocity is set from `{norm(val)[:90]}`, expected `{want_txt} >> Velocity.FPS`')
-    if good and len(good) == len(stores):
-        rep.ok('C17.R4', tc.where(good[0]), f'muzzle_velocity = {want_txt} >> FPS (only store)')
-    elif not stores:
-        raise AnalysisError('no store to muzzle_velocity found in the solver')
+    # by evaluation: _init_trajectory on a symbolic shot, with Ammo.get_velocity_for_temp replaced by a recorder that
+    # hands back a fresh velocity symbol in km/h; the launch speed must be that symbol read in fps, and the recorder
+    # must have been asked for the powder temperature the Atmo object carries
+    from .c01 import init_trajectory_state
+    asked = []
+
+    def gv_hook(ev_, func, args, kwargs, st_, self_val):
+        asked.append(args[0] if args else next(iter(kwargs.values()), None))
+        return C.mk_quantity(ev_, st_, prog, 'Velocity', f'gv_raw{len(asked)}', 'KMH')
+    ev4, st4, self4, shot4 = init_trajectory_state(prog, {'call:Ammo.get_velocity_for_temp': gv_hook})
+    # a second shot on the same solver: same rifle and ammunition, another atmosphere
+    h_shot = st4.heap[shot4.oid]
+    atmo_b = ev4.new_inst(st4, prog.cls(C.M_COND, 'Atmo'), dict(st4.heap[h_shot['atmo'].oid]))
+    st4.heap[atmo_b.oid]['_powder_temp'] = C.mk_quantity(ev4, st4, prog, 'Temperature', 'apt_raw2', 'Kelvin')
+    shot_b = ev4.new_inst(st4, prog.cls(C.M_COND, 'Shot'), {**h_shot, 'atmo': atmo_b})
+    states = [(1, st4.heap[self4.oid].get('muzzle_velocity'), 'apt_raw')]
+    try:
+        r2 = ev4.call_func(it, [shot_b], {}, st4, Ctx(tc, None, None, 0), self_val=self4)
+    except Undecided as exc:
+        raise AnalysisError(f'_init_trajectory (second shot on the same solver): {exc}') from exc
+    if isinstance(r2, Raised):
+        raise AnalysisError('_init_trajectory raises on the second shot in the abstract evaluation')
+    states.append((2, st4.heap[self4.oid].get('muzzle_velocity'), 'apt_raw2'))
+    bad = None
+    for k, got, apt_sym in states:
+        if got is None:
+            raise AnalysisError('_init_trajectory leaves no muzzle_velocity on the solver')
+        vals = [x for _p, x in cond_leaves(got)]
+        ordinal = 'first' if k == 1 else 'second (same solver, same ammunition, another atmosphere)'
+        wants = [C.read_raw_in(ev4, prog, 'Velocity', f'gv_raw{j}', 'FPS') for j in range(1, len(asked) + 1)]
+        mine = [j for j, w_ in enumerate(wants, 1) if vals and all(isinstance(x, Scalar) and x.rf.equals(w_) for x in vals)]
+        if not mine:
+            bad = f'{ordinal} shot: the launch speed is {got!r}, not ammo.get_velocity_for_temp(...) read in fps'
+            break
+        a_ = asked[mine[-1] - 1]
+        raw_ = C.raw_of(ev4, st4, a_) if isinstance(a_, Inst) else None
+        if raw_ is None or not raw_.equals(A.sym(apt_sym)):
+            bad = (f'{ordinal} shot: the velocity comes from a query at {ev4.describe(a_)}, not at the powder temperature of '
+                   f'this shot\'s atmosphere')
+            break
+    if bad:
+        rep.fail('C17.R4', tc.path, it.node.lineno, it.qualname, 'muzzle_velocity', bad)
+    else:
+        rep.ok('C17.R4', it.where, 'muzzle_velocity = ammo.get_velocity_for_temp(atmo.powder_temp) read in fps, on a fresh '
+               'solver and on a second shot with the same ammunition')
+    # no later store replaces it
+    other = [(f, n) for f in tc.funcs.values() if f is not it for n in ast.walk(f.node)
+             if isinstance(n, (ast.Assign, ast.AugAssign, ast.AnnAssign))
+             for t in (n.targets if isinstance(n, ast.Assign) else [n.target])
+             if isinstance(t, ast.Attribute) and t.attr == 'muzzle_velocity']
+    for f, n in other:
+        rep.fail('C17.R4', tc.path, n.lineno, f.qualname, 'muzzle_velocity',
+                 f'{f.qualname} overwrites the launch speed: `{norm(n)[:90]}`')
     mv_reads = [(f, n) for f in tc.funcs.values() for n in ast.walk(f.node)
                 if isinstance(n, ast.Attribute) and n.attr == 'mv' and isinstance(n.ctx, ast.Load)]
     if mv_reads:
